@@ -11,6 +11,8 @@ _MISSING = object()
 def _symkey(k):
     if is_sym(k):
         return True
+    if type(k).__name__ in ("SymFloat", "SymStr", "SymBytes", "SymByteArray"):
+        return True
     if isinstance(k, tuple):
         return any(_symkey(e) for e in k)
     return False
